@@ -9,6 +9,7 @@ NOTES = ("Every verdict is a SAT/SMT verdict over an encoding regenerated from /
          "or a counterexample that does not reproduce natively) - never reported as success.")
 NOT_APPLICABLE = {
     "C01": "every clause is an expectation/probability over hash randomness (needs a measure, not a forall/exists verdict; the law involves exp); its forall-lemmas are decided under C02/C14/C15",
+    "C06": "bias O(1/m) and 15% spread are distributional (a measure, not a forall/exists verdict); the parallel estimator spawns rayon threads (not modelled by Kani); the monotonicity clause was attempted (harness c06_monotone_* in harness/setsketcher.rs: registers k<=k' => estimate(k)<=estimate(k'), exp stubbed monotone, b=1.001,a=20 concrete) but monotonicity of the 53-bit multiplier/divider chain is a SAT-hard miter: no verdict in 40 min (m=2) and 60 min (m=3)",
     "C08": "single clause, an expectation over hash and densification randomness; the structural facts are decided under C04/C09",
     "C10": "single clause, an expectation over hash randomness; the selection mechanism is decided under C11",
 }
@@ -274,6 +275,12 @@ _c09 = [
     H("c09_rev_densify_m3_p4", 1800, "thorough", "RevOptDensMinHash::end_sketch, populated bins = bit mask 0b100, same assertions; stream keys depend on (position, pass) only", "m=3; <= 4 passes", extra=_NU),
     H("c09_rev_densify_m3_p5", 1800, "thorough", "RevOptDensMinHash::end_sketch, populated bins = bit mask 0b101, same assertions; stream keys depend on (position, pass) only", "m=3; <= 4 passes", extra=_NU),
     H("c09_rev_densify_m3_p6", 1800, "thorough", "RevOptDensMinHash::end_sketch, populated bins = bit mask 0b110, same assertions; stream keys depend on (position, pass) only", "m=3; <= 4 passes", extra=_NU),
+    H("c09_opt_slice_full_m2", 1200, "quick", "OptDensMinHash: sketch_slice(&[a]) == sketch(a); end_sketch() from an arbitrary FULLY populated state", "m=2", extra=_NU),
+    H("c09_opt_slice_full_m3", 1800, "thorough", "same", "m=3", extra=_NU),
+    H("c09_opt_slice_part_m3", 1800, "thorough", "same from a state with bins 0 and 2 populated", "m=3", extra=_NU),
+    H("c09_rev_slice_full_m2", 1200, "quick", "RevOptDensMinHash: sketch_slice(&[a]) == sketch(a); end_sketch() from an arbitrary fully populated state", "m=2", extra=_NU),
+    H("c09_rev_slice_full_m3", 1800, "thorough", "same", "m=3", extra=_NU),
+    H("c09_rev_slice_part_m3", 2400, "thorough", "same from a state with bins 0 and 2 populated", "m=3", extra=_NU),
     H("c09_opt_slice_m2", 1800, "quick", "OptDensMinHash: sketch_slice(&[a,b]) == sketch(a); sketch(b); end_sketch() from the same arbitrary state (shared oracle)", "m=2", extra=_NU),
     H("c09_opt_slice_m3", 3600, "thorough", "same", "m=3", extra=_NU),
     H("c09_rev_slice_m2", 1800, "quick", "RevOptDensMinHash: sketch_slice == item-wise + end_sketch", "m=2", extra=_NU),
@@ -303,6 +310,7 @@ SPECS["C09"] = dict(
 
 # --------------------------------------------------------------------------------------- C02
 _c02 = [
+    H("c02_pmh3_vs_3a_m2", 5400, "thorough", "ProbMinHash3 (item-wise) == ProbMinHash3a (IndexMap, two-pass) on a two-item weighted set from fresh sketchers: same signature and registers", "m=2, weights 1 and 2, concrete labels, all generator outputs symbolic, races cut at 5 points", extra=["--no-unwinding-checks"]),
     H("c02_pmh3_step_m2_n3_w1", 1800, "quick", "ProbMinHash3::hash_item step lemma, weight 1", "m=2, 3 points, weight 1.0"),
     H("c02_pmh3_step_m3_n4_w1", 2400, "thorough", "same", "m=3, 4 points, weight 1.0"),
     H("c02_pmh2_step_m2_w1", 1800, "quick", "ProbMinHash2::hash_item step lemma, weight 1", "m=2, weight 1.0"),
@@ -382,23 +390,17 @@ _c11 = [
     H("c11_store_m2_l1", 900, "quick", "OrdMinHashStore::update_with_maxtracker from any sorted store: pair enters iff it beats the l-th smallest value of the position; lists stay sorted; other positions untouched; tracker slot == l-th value", "m=2,l=1"),
     H("c11_store_m2_l2", 1200, "quick", "same", "m=2,l=2"),
     H("c11_store_m3_l3", 2400, "thorough", "same", "m=3,l=3"),
-    H("c11_hashset_perm_l1_m2", 3600, "quick", "ProbOrdMinHash2::hash_set, l=1: signature invariant under swapping a two-element sequence (all generator outputs symbolic)", "m=2, |seq|=2, concrete labels"),
-    H("c11_hashset_perm_l1_m3", 3600, "thorough", "same", "m=3, |seq|=2"),
-    H("c11_hashset_perm_rep_m2", 3600, "thorough", "hash_set l=1 with a repeated element: [x,x,y], [y,x,x], [x,y,x] give the same signature", "m=2, |seq|=3"),
-    H("c13_hashset_dirty_m2_l1", 3600, "thorough", "hash_set is self-clearing: an instance that hashed another sequence before == a fresh instance (with other RandomState keys)", "m=2, l=1"),
-    H("c13_hashset_dirty_m2_l2", 3600, "thorough", "same", "m=2, l=2"),
 ]
 SPECS["C11"] = dict(
     level="model_checking", harnesses=_c11,
-    functions=["OrdMinHashStore::{update_with_maxtracker, reset, create_signature}", "ProbOrdMinHash2::hash_set", "MaxValueTracker", "FYshuffle", "std HashMap (concrete keys)", "wyhash"],
-    bounds={"quick": "store step m=2, l in {1,2}; hash_set l=1, m=2, two distinct elements in both orders", "thorough": "store step m=3,l=3; hash_set m=3; repeated element (3 orders); dirty-vs-fresh instance l in {1,2}"},
-    outside="sequences longer than 3, m > 3, l > 2 end to end; element labels and RandomState keys are concrete (the per-pair generator is an oracle, so labels only need to be distinct); ThreadRng fields are never-read placeholders",
-    assumptions=["per-(element, occurrence, seed) generator = memoised oracle keyed by the 256-bit seed; Exp1 arbitrary finite >= 0",
-                 "store invariant: per position the l values ascend and the tracker slot equals the l-th value"],
-    not_decided=[],
-    level_text="Bounded model checking: (a) store level, one offered pair from any sorted store: it enters a position iff it beats that position's l-th smallest value, lists stay sorted, other positions untouched, tracker exact; (b) end to end at tiny size with every generator output symbolic: the l=1 signature is invariant under permutation of the sequence (also with a repeated element), and a used instance equals a fresh one with different per-process hash keys (C13 self-clearing, C12).",
-    level_note="Trusted: Kani/CBMC, oracle RNG models. Tiny sizes; concrete labels; instance built by a struct literal because ProbOrdMinHash2::new reaches OS entropy (ThreadRng), which is what C12 part 2 examines.",
-    technique="Kani/CBMC bounded model checking, step lemma + two-run differential with an oracle RNG model",
+    functions=["OrdMinHashStore::update_with_maxtracker", "MaxValueTracker::{update,get_value}"],
+    bounds={"quick": "store step m=2, l in {1,2}", "thorough": "store step m=3, l=3"},
+    outside="ProbOrdMinHash2::hash_set end to end is NOT encoded: its occurrence counter is a std HashMap, whose hashbrown SIMD group probing needs unwind 17 per lookup and did not leave symbolic execution in 60 min even with concrete keys; Kani 0.68 rejects stubs for HashMap::get_mut (region mismatch in the signature check). Therefore the clauses 'selection depends only on the multiset', 'l = 1 signature invariant under permutation' and the self-clearing part of C13 for ProbOrdMinHash2 are not decided; only the per-position insertion rule they rest on is. Seen by reading, out of reach of the harnesses: hash_set stops offering a pair at the first position that rejects it (`if !inserted { break; }`), although later positions could still accept its (larger) next value.",
+    assumptions=["store invariant: per position the l values ascend and the tracker slot equals the l-th value (holds after reset; preserved: checked)", "offered values are not NaN"],
+    not_decided=["which (element, occurrence) pairs are selected depends only on the multiset of elements", "for l = 1 the signature is invariant under every permutation of the sequence", "every signature position is the combined hash of l elements taken in sequence order (create_signature sorts the selected indices: read, not encoded)"],
+    level_text="Store-level step lemma only: from any store whose per-position lists are sorted and whose tracker slots equal the l-th values, one offered (value, index) pair enters a position iff it beats that position's l-th smallest value, is inserted in order, the largest is dropped, other positions are untouched, and the tracker stays exact - so the outer stop test `x < max` is exact.",
+    level_note="Trusted: Kani/CBMC. hash_set itself is out of reach (HashMap); the order-independence clauses of C11 are not decided (stated).",
+    technique="Kani/CBMC bounded model checking, step lemma over a symbolic sorted store",
 )
 
 # --------------------------------------------------------------------------------------- C20
